@@ -10,6 +10,7 @@ mod engines {
 	pub mod output;
 	pub mod encoding;
 	pub mod transcode;
+	pub mod input;
 	pub mod tomlorder;
 }
 mod props {
@@ -23,6 +24,7 @@ mod props {
 	pub mod c08;
 	pub mod c07;
 	pub mod c11;
+	pub mod c09;
 }
 mod corpus;
 mod gen;
@@ -80,6 +82,10 @@ fn main() {
 				engines::transcode::run(&mut out, &mut rng.fork(), thorough);
 				props::c11::run(&mut out, &mut rng.fork(), thorough);
 			}
+			"C09" => {
+				engines::input::run(&mut out, &mut rng.fork(), thorough);
+				props::c09::run(&mut out, &mut rng.fork(), thorough);
+			}
 			_ => {
 				eprintln!("unknown property {prop}");
 				std::process::exit(3);
@@ -119,6 +125,19 @@ fn main() {
 		let inputs: Vec<_> = args[5].split('/').map(|h| (util::unhex(h).expect("hex"), supply.clone(), from)).collect();
 		let (results, out) = xtapi::translate_many(&inputs, to);
 		println!("results={results:?}\noutput={}\ntext={:?}", util::hex(&out), String::from_utf8_lossy(&out));
+	if args.len() >= 2 && args[1] == "probe-transient" {
+		props::c09::probe_transient();
+		return;
+	}
+	if args.len() >= 2 && args[1] == "probe-chunking" {
+		std::panic::set_hook(Box::new(|_| {}));
+		props::c09::probe_chunking();
+		return;
+	}
+	if args.len() >= 4 && args[1] == "probe-detect" {
+		// xtverif probe-detect <hex> <to>: detection and explicit/detected runs in both supply modes.
+		std::panic::set_hook(Box::new(|_| {}));
+		props::c09::probe(&util::unhex(&args[2]).expect("hex"), xtapi::Fmt::from_name(&args[3]).expect("format"), args.get(4).map(String::as_str));
 		return;
 	}
 	eprintln!("usage: xtverif run <Cnn> <quick|thorough> <seed> <outdir>");
